@@ -14,6 +14,7 @@ import (
 	"go/token"
 	"os"
 	"path/filepath"
+	"sort"
 	"strconv"
 	"strings"
 	"testing"
@@ -37,6 +38,18 @@ type node struct {
 	peer *cluster.Peer
 	sil  *silence.Silences
 	nfl  *nflog.Log
+	down bool // crashed and not (yet) replaced by a new instance
+}
+
+// live: the nodes that are up
+func (w *world) live() []*node {
+	var l []*node
+	for _, n := range w.nodes {
+		if !n.down {
+			l = append(l, n)
+		}
+	}
+	return l
 }
 
 type world struct {
@@ -44,20 +57,22 @@ type world struct {
 	nodes      []*node
 	sils       []string // ids of all silences created so far
 	gkeys      []string // group keys logged so far
+	restarts   int
 }
 
 const settle = 8 * time.Second
 
 func (w *world) addNode() (*node, error) {
-	n, err := w.newNode("127.0.0.1:0", -1)
+	n, err := w.newNode("127.0.0.1:0", -1, "")
 	if err == nil {
 		w.nodes = append(w.nodes, n)
 	}
 	return n, err
 }
 
-// newNode creates a peer bound to `bind` that joins through some node other than `except`.
-func (w *world) newNode(bind string, except int) (*node, error) {
+// newNode creates a peer bound to `bind` that joins through some node other than `except`
+// (name "" = a fresh random ULID, as a start without --cluster.peer-name).
+func (w *world) newNode(bind string, except int, name string) (*node, error) {
 	var known []string
 	for i, m := range w.nodes {
 		if i != except {
@@ -65,10 +80,17 @@ func (w *world) newNode(bind string, except int) (*node, error) {
 			break
 		}
 	}
+	return w.mkNode(bind, known, name, true)
+}
+
+// mkNode creates a peer bound to `bind` configured with the peers `known` (--cluster.peer); reconnect=false is
+// --cluster.reconnect-interval=0 --cluster.reconnect-timeout=0: only the periodic refresh of the configured peers
+// (every cluster.DefaultRefreshInterval) dials a peer that is not a member.
+func (w *world) mkNode(bind string, known []string, name string, reconnect bool) (*node, error) {
 	reg := prometheus.NewRegistry()
 	p, err := cluster.Create(promslog.NewNopLogger(), reg, bind, "", known, false,
 		cluster.DefaultPushPullInterval, 50*time.Millisecond, 2*time.Second, 2*time.Second,
-		cluster.DefaultProbeTimeout, cluster.DefaultProbeInterval, nil, false, "", "")
+		cluster.DefaultProbeTimeout, cluster.DefaultProbeInterval, nil, false, "", name)
 	if err != nil {
 		return nil, err
 	}
@@ -86,10 +108,102 @@ func (w *world) newNode(bind string, except int) (*node, error) {
 	if w.beforeJoin != nil {
 		w.beforeJoin(n)
 	}
-	if err := p.Join(cluster.DefaultReconnectInterval, cluster.DefaultReconnectTimeout); err != nil {
+	ri, rt := cluster.DefaultReconnectInterval, cluster.DefaultReconnectTimeout
+	if !reconnect {
+		ri, rt = 0, 0
+	}
+	if err := p.Join(ri, rt); err != nil {
 		return nil, err
 	}
 	return n, nil
+}
+
+func memberNames(n *node) []string {
+	var l []string
+	for _, m := range n.peer.Peers() {
+		l = append(l, m.Name())
+	}
+	sort.Strings(l)
+	return l
+}
+
+// positions reports, per node, its name, its Position() and the sorted names of the members as that node sees them
+// (read before and after Position(): the two readings must agree, "?" when the membership kept changing).
+func (w *world) positions() string {
+	var parts []string
+	for _, m := range w.live() {
+		pos, names := "?", []string(nil)
+		for try := 0; try < 25; try++ {
+			a := memberNames(m)
+			p := m.peer.Position()
+			names = memberNames(m)
+			if strings.Join(a, ".") == strings.Join(names, ".") {
+				pos = strconv.Itoa(p)
+				break
+			}
+			time.Sleep(20 * time.Millisecond)
+		}
+		parts = append(parts, fmt.Sprintf("%s:%s:%s", m.peer.Name(), pos, strings.Join(names, ".")))
+	}
+	return strings.Join(parts, ",")
+}
+
+// restart crashes node i (no leave is announced) and starts a NEW instance (empty state) on the same address at once,
+// configured with the peers `known` (nil: taken from the other nodes), under `name` ("" = random).
+func (w *world) restart(i int, known []string, fromOthers bool, name string) (*node, string, error) {
+	oldName := w.nodes[i].peer.Name()
+	if !w.nodes[i].down {
+		if err := w.nodes[i].peer.VerifCrash(); err != nil {
+			return nil, oldName, err
+		}
+		w.nodes[i].down = true
+	}
+	addr := w.nodes[i].peer.Self().Address()
+	var n *node
+	var err error
+	for attempt := 0; attempt < 100; attempt++ { // the port is free again a moment after the shutdown
+		if fromOthers {
+			n, err = w.newNode(addr, i, name)
+		} else {
+			n, err = w.mkNode(addr, known, name, true)
+		}
+		if err == nil {
+			break
+		}
+		time.Sleep(50 * time.Millisecond)
+	}
+	if err != nil {
+		return nil, oldName, err
+	}
+	w.nodes[i] = n
+	return n, oldName, nil
+}
+
+// settled: every member lists exactly the live names (size right, the old name declared dead everywhere)
+func (w *world) settled(oldName string) bool {
+	ok := true
+	for _, m := range w.live() {
+		ok = ok && m.peer.ClusterSize() == len(w.live())
+		for _, p := range m.peer.Peers() {
+			ok = ok && p.Name() != oldName
+		}
+	}
+	return ok
+}
+
+// holds counts the updates made so far that node n has.
+func (w *world) holds(n *node) (have, want int) {
+	for _, id := range w.sils {
+		if n.hasSil(id) {
+			have++
+		}
+	}
+	for _, gk := range w.gkeys {
+		if n.hasLog(gk) {
+			have++
+		}
+	}
+	return have, len(w.sils) + len(w.gkeys)
 }
 
 // appSetupOrder reads app/app.go of the tree under check: the gossip states ("nfl", "sil") are registered with the peer
@@ -149,12 +263,12 @@ func (w *world) waitAll(pred func(*node) bool) int {
 	deadline := time.Now().Add(settle)
 	for {
 		c := 0
-		for _, n := range w.nodes {
+		for _, n := range w.live() {
 			if pred(n) {
 				c++
 			}
 		}
-		if c == len(w.nodes) || time.Now().After(deadline) {
+		if c == len(w.live()) || time.Now().After(deadline) {
 			return c
 		}
 		time.Sleep(20 * time.Millisecond)
@@ -181,7 +295,7 @@ func (w *world) exec(line string) string {
 		}
 		w.sils = append(w.sils, s.Id)
 		c := w.waitAll(func(n *node) bool { return n.hasSil(s.Id) })
-		return fmt.Sprintf("seen=%d/%d", c, len(w.nodes))
+		return fmt.Sprintf("seen=%d/%d", c, len(w.live()))
 	case "nfl":
 		i, _ := strconv.Atoi(t[1])
 		nf := 2
@@ -198,7 +312,7 @@ func (w *world) exec(line string) string {
 		}
 		w.gkeys = append(w.gkeys, gk)
 		c := w.waitAll(func(n *node) bool { return n.hasLog(gk) })
-		return fmt.Sprintf("seen=%d/%d", c, len(w.nodes))
+		return fmt.Sprintf("seen=%d/%d", c, len(w.live()))
 	case "fact":
 		return appSetupOrder()
 	case "prejoin":
@@ -242,7 +356,7 @@ func (w *world) exec(line string) string {
 		}
 		w.sils = append(w.sils, small)
 		c := w.waitAll(func(n *node) bool { return n.hasSil(small) })
-		return fmt.Sprintf("seen=%d/%d", c, len(w.nodes))
+		return fmt.Sprintf("seen=%d/%d", c, len(w.live()))
 	case "burst":
 		// n small silences and n small log entries are created back-to-back on node i (no waiting in between: all of them
 		// are queued for gossip within one gossip interval), then every node must come to hold all of them.  The settle
@@ -282,63 +396,91 @@ func (w *world) exec(line string) string {
 			}
 			return true
 		})
-		return fmt.Sprintf("seen=%d/%d", c, len(w.nodes))
+		return fmt.Sprintf("seen=%d/%d", c, len(w.live()))
 	case "rejoin":
-		// node i is killed (no leave is announced) and a NEW instance (new random name, empty state) starts on the same
+		// node i is killed (no leave is announced) and a NEW instance (new name, empty state) starts on the same
 		// address at once, as a restarted process does; the others learn of the new name by gossip and of the old name's
-		// death by probing, in either order
+		// death by probing, in either order.  `rejoin <i> first`: the new name sorts before every other member's
+		// (--cluster.peer-name; random names are ULIDs, i.e. ordered by start time); default: a random name.
 		i, _ := strconv.Atoi(t[1])
-		addr := w.nodes[i].peer.Self().Address()
-		oldName := w.nodes[i].peer.Name()
-		if err := w.nodes[i].peer.VerifCrash(); err != nil {
-			return "error:" + hx.Hex(err.Error())
+		name := ""
+		if len(t) > 2 && t[2] == "first" {
+			w.restarts++
+			name = fmt.Sprintf("00RESTARTED%02d", w.restarts)
 		}
-		var n *node
-		var err error
-		for attempt := 0; attempt < 100; attempt++ { // the port is free again a moment after the shutdown
-			if n, err = w.newNode(addr, i); err == nil {
-				break
-			}
-			time.Sleep(50 * time.Millisecond)
-		}
+		n, oldName, err := w.restart(i, nil, true, name)
 		if err != nil {
 			return "error:" + hx.Hex(err.Error())
 		}
-		w.nodes[i] = n
 		// until every member lists exactly the live names (the old name has been declared dead everywhere)
 		deadline := time.Now().Add(40 * time.Second)
-		for time.Now().Before(deadline) {
-			ok := true
-			for _, m := range w.nodes {
-				ok = ok && m.peer.ClusterSize() == len(w.nodes)
-				for _, p := range m.peer.Peers() {
-					ok = ok && p.Name() != oldName
-				}
-			}
-			if ok {
-				break
-			}
+		for time.Now().Before(deadline) && !w.settled(oldName) {
 			time.Sleep(50 * time.Millisecond)
 		}
 		// the restarted instance obtains the current state through the full-state exchange
-		want := len(w.sils) + len(w.gkeys)
 		dl := time.Now().Add(settle)
 		for {
-			have := 0
-			for _, id := range w.sils {
-				if n.hasSil(id) {
-					have++
-				}
-			}
-			for _, gk := range w.gkeys {
-				if n.hasLog(gk) {
-					have++
-				}
-			}
+			have, want := w.holds(n)
 			if have == want || time.Now().After(dl) {
-				return fmt.Sprintf("has=%d/%d members=%d", have, want, n.peer.ClusterSize())
+				return fmt.Sprintf("has=%d/%d members=%d pos=%s", have, want, n.peer.ClusterSize(), w.positions())
 			}
 			time.Sleep(20 * time.Millisecond)
+		}
+	case "solo":
+		// an instance configured with no peers at all (others dial it)
+		n, err := w.mkNode("127.0.0.1:0", nil, "", true)
+		if err != nil {
+			return "error:" + hx.Hex(err.Error())
+		}
+		w.nodes = append(w.nodes, n)
+		return "ok"
+	case "dialer":
+		// an instance whose only configured peer is node j, with reconnect disabled (--cluster.reconnect-interval=0):
+		// the periodic refresh of the configured peers is what dials j when j is not a member
+		j, _ := strconv.Atoi(t[1])
+		n, err := w.mkNode("127.0.0.1:0", []string{w.nodes[j].peer.Self().Address()}, "", false)
+		if err != nil {
+			return "error:" + hx.Hex(err.Error())
+		}
+		w.nodes = append(w.nodes, n)
+		deadline := time.Now().Add(settle)
+		for time.Now().Before(deadline) && !w.settled("") {
+			time.Sleep(20 * time.Millisecond)
+		}
+		return fmt.Sprintf("members=%d", n.peer.ClusterSize())
+	case "crash":
+		// node i is killed (no leave is announced); until the others have declared it dead
+		i, _ := strconv.Atoi(t[1])
+		if err := w.nodes[i].peer.VerifCrash(); err != nil {
+			return "error:" + hx.Hex(err.Error())
+		}
+		w.nodes[i].down = true
+		deadline := time.Now().Add(40 * time.Second)
+		for time.Now().Before(deadline) && !w.settled("") {
+			time.Sleep(50 * time.Millisecond)
+		}
+		k := 0
+		for _, m := range w.live() {
+			k = max(k, m.peer.ClusterSize())
+		}
+		return fmt.Sprintf("members=%d", k)
+	case "revive":
+		// a new instance starts on the address of the crashed node i, again configured with no peers (nobody but the
+		// dialer knows of that address, and the new instance knows of nobody): nothing on its side points at the
+		// cluster, the dialer's refresh has to join it again (bounded: two refresh intervals and a margin), then the
+		// new instance holds everything, the updates made while it was away included
+		i, _ := strconv.Atoi(t[1])
+		n, oldName, err := w.restart(i, nil, false, "")
+		if err != nil {
+			return "error:" + hx.Hex(err.Error())
+		}
+		deadline := time.Now().Add(2*cluster.DefaultRefreshInterval + 8*time.Second)
+		for {
+			have, want := w.holds(n)
+			if (have == want && w.settled(oldName)) || time.Now().After(deadline) {
+				return fmt.Sprintf("has=%d/%d members=%d pos=%s", have, want, n.peer.ClusterSize(), w.positions())
+			}
+			time.Sleep(50 * time.Millisecond)
 		}
 	case "join":
 		n, err := w.addNode()
@@ -380,7 +522,21 @@ func (w *world) exec(line string) string {
 	panic("bad op " + line)
 }
 
-func runCase(t *testing.T, tr *hx.Trace, header string, ops []string) {
+// liner receives the trace lines of a case (the trace itself, or a buffer for a case that runs beside the others)
+type liner interface{ Linef(format string, a ...any) }
+
+type lineBuf struct{ lines []string }
+
+func (b *lineBuf) Linef(format string, a ...any) { b.lines = append(b.lines, fmt.Sprintf(format, a...)) }
+
+// redialOps: only A (node 1) is configured with B (node 0) as its peer, B with nobody; B is killed, A declares it dead
+// and takes updates meanwhile; then a new B starts on the same address, again knowing nobody.  A's periodic refresh of
+// its configured peers must join B again (reconnect is disabled on A), B then obtains the state through the full-state
+// exchange and updates flow both ways.  (A B that restarts at once, while A's membership broadcasts are still queued,
+// is picked up by memberlist's gossip alone: the case needs the old instance to be known dead.)
+var redialOps = []string{"solo", "dialer 0", "sil 1 small", "nfl 0 small", "crash 0", "sil 1 small", "nfl 1 big", "revive 0", "sil 1 small", "sil 0 big", "nfl 0 small", "nfl 1 big"}
+
+func runCase(t *testing.T, tr liner, header string, ops []string) {
 	tr.Linef("%s", header)
 	w := &world{}
 	n0 := 2
@@ -407,7 +563,7 @@ func runCase(t *testing.T, tr *hx.Trace, header string, ops []string) {
 		time.Sleep(20 * time.Millisecond)
 	}
 	defer func() {
-		for _, n := range w.nodes {
+		for _, n := range w.live() {
 			n.peer.Leave(100 * time.Millisecond)
 		}
 	}()
@@ -439,6 +595,20 @@ func TestEngine(t *testing.T) {
 		flush()
 		return
 	}
+	// the re-dial case waits for real refresh intervals (15 s each, not configurable): it runs beside the other cases
+	// (its own peers on their own loopback ports) and its lines are written after theirs
+	side := &lineBuf{}
+	sideDone := make(chan struct{})
+	go func() {
+		defer close(sideDone)
+		runCase(t, side, "case 1000 n=0 kind=redial", redialOps)
+	}()
+	defer func() {
+		<-sideDone
+		for _, l := range side.lines {
+			tr.Linef("%s", l)
+		}
+	}()
 	r := hx.Rand(192)
 	for id := range hx.Cases(2, 14) {
 		n := 2 + id%2
@@ -463,7 +633,11 @@ func TestEngine(t *testing.T) {
 			// a member crashes and restarts on its address under a new name; afterwards updates of both sizes from a
 			// surviving member must reach it
 			k := 1 + r.IntN(n)
-			ops = append(ops, fmt.Sprintf("rejoin %d", k), "sil 0 big", "nfl 0 big", "sil 0 small", fmt.Sprintf("sil %d big", k))
+			rj := fmt.Sprintf("rejoin %d", k)
+			if id%4 == 0 { // the restarted instance's name sorts first: the survivors move back one position
+				rj += " first"
+			}
+			ops = append(ops, rj, "sil 0 big", "nfl 0 big", "sil 0 small", fmt.Sprintf("sil %d big", k))
 		}
 		runCase(t, tr, fmt.Sprintf("case %d n=%d", id, n), ops)
 	}
